@@ -54,6 +54,12 @@ struct Counters {
     /// consumer calls / calls whose output does not belong to the record (counted in every run, judged in long runs)
     ncalls: AtomicI64,
     nbad: AtomicI64,
+    /// data sets the reader thread has taken from the queue of empty sets (hook R.recv.got) and the largest lead of
+    /// that count over the results the consumer has received (hook C.recv.ok)
+    got: AtomicI64,
+    max_lead: AtomicI64,
+    /// largest RecordSet::buf_capacity() the consumer has seen (read_parallel runs)
+    maxsetcap: AtomicI64,
 }
 impl Counters {
     fn new(seed: u64, jitter: bool) -> Counters {
@@ -69,6 +75,9 @@ impl Counters {
             jitter: AtomicBool::new(jitter),
             ncalls: AtomicI64::new(0),
             nbad: AtomicI64::new(0),
+            got: AtomicI64::new(0),
+            max_lead: AtomicI64::new(0),
+            maxsetcap: AtomicI64::new(0),
         }
     }
     fn jitter(&self) {
@@ -155,7 +164,12 @@ fn install_hook(sh: &Shared, ct: &Arc<Counters>) {
         }
         match (p, after) {
             ("R.recv", false) => gate("R", "recv", 0),
-            ("R.recv.got", true) | ("R.recv.closed", true) => done("R", "recv"),
+            ("R.recv.got", true) => {
+                let g = c.got.fetch_add(1, Ordering::SeqCst) + 1;
+                c.max_lead.fetch_max(g - c.received.load(Ordering::SeqCst), Ordering::SeqCst);
+                done("R", "recv")
+            }
+            ("R.recv.closed", true) => done("R", "recv"),
             ("R.senderr", false) => gate("R", "senderr", 0),
             ("R.senderr", true) => done("R", "senderr"),
             ("R.join", false) => gate("R", "join", 0),
@@ -652,6 +666,8 @@ macro_rules! sets_runner {
             use seq_io::$m::Record as _;
             let reader = seq_io::$m::Reader::with_capacity(std::io::Cursor::new(c.x.clone()), c.cap);
             let ct2 = ct.clone();
+            let ct3 = ct.clone();
+            let big = c.big;
             let stop_after = c.stop_after;
             let calls2 = calls.clone();
             let r: Result<Option<usize>, seq_io::$m::Error> = parallel::read_parallel(
@@ -659,7 +675,9 @@ macro_rules! sets_runner {
                 c.nw,
                 c.q,
                 move |set: &mut seq_io::$m::RecordSet| {
-                    ct2.jitter();
+                    if !big {
+                        ct2.jitter();
+                    }
                     // worker output: (head, raw seq length) of every record of this very set
                     set.into_iter().map(|r| (r.head().to_vec(), r.seq().len())).collect::<Vec<_>>()
                 },
@@ -671,9 +689,18 @@ macro_rules! sets_runner {
                             Err(e) => return Err(e),
                         };
                         nsets += 1;
+                        ct3.maxsetcap.fetch_max(set.buf_capacity() as i64, Ordering::SeqCst);
                         let mut i = 0;
                         for rec in &*set {
                             let (h, n) = out.get(i).cloned().unwrap_or((vec![255], 99999));
+                            ct3.ncalls.fetch_add(1, Ordering::SeqCst);
+                            if h != rec.head() || n != rec.seq().len() {
+                                ct3.nbad.fetch_add(1, Ordering::SeqCst);
+                            }
+                            if big {
+                                i += 1;
+                                continue;
+                            }
                             calls2.lock().unwrap().push(format!(
                                 "{{\"rec\":{},\"out\":{{\"head\":{},\"n\":{},\"stale\":false}},\"rawlen\":{},\"tag\":{}}}",
                                 $recjson(&rec, false, false),
@@ -685,6 +712,7 @@ macro_rules! sets_runner {
                             i += 1;
                         }
                         if out.len() != i {
+                            ct3.nbad.fetch_add(1, Ordering::SeqCst);
                             calls2.lock().unwrap().push("{\"rec\":{\"k\":\"rec\",\"head\":[],\"lines\":[],\"qual\":[]},\"out\":{\"head\":[0],\"n\":0,\"stale\":true},\"rawlen\":-1,\"tag\":-1}".to_string());
                         }
                         if stop_after > 0 && nsets >= stop_after {
@@ -814,7 +842,7 @@ fn run_api(c: &ApiCase, seed: u64) -> String {
     let count = |t: &str, p: &str| -> usize { g.logs.iter().filter(|(n, _)| n.starts_with(t)).map(|(_, e)| e.iter().filter(|v| v["p"] == p).count()).sum() };
     let calls_v = calls.lock().unwrap();
     format!(
-        "{{\"ev\":\"run\",\"big\":{},\"api\":\"{}\",\"fmt\":\"{}\",\"input\":{},\"cap\":{},\"NW\":{},\"Q\":{},\"stop_after\":{},\"rinit_fail\":{},\"recinit_fail_at\":{},\"setinit_fail_at\":{},\"result\":{},\"set_sizes\":{:?},\"calls\":[{}],\"ncalls\":{},\"nbad\":{},\"nworks\":{},\"nrecinit\":{},\"nsetinit\":{},\"fills_ok\":{},\"senderr\":{},\"sendend\":{},\"recv_ok\":{},\"jobs_started\":{},\"jobs_finished\":{},\"late_events\":{}}}",
+        "{{\"ev\":\"run\",\"big\":{},\"api\":\"{}\",\"fmt\":\"{}\",\"input\":{},\"cap\":{},\"NW\":{},\"Q\":{},\"stop_after\":{},\"rinit_fail\":{},\"recinit_fail_at\":{},\"setinit_fail_at\":{},\"result\":{},\"set_sizes\":{:?},\"calls\":[{}],\"ncalls\":{},\"nbad\":{},\"lead\":{},\"maxsetcap\":{},\"nworks\":{},\"nrecinit\":{},\"nsetinit\":{},\"fills_ok\":{},\"senderr\":{},\"sendend\":{},\"recv_ok\":{},\"jobs_started\":{},\"jobs_finished\":{},\"late_events\":{}}}",
         c.big,
         c.api,
         c.fmt,
@@ -831,6 +859,8 @@ fn run_api(c: &ApiCase, seed: u64) -> String {
         calls_v.join(","),
         ct.ncalls.load(Ordering::SeqCst),
         ct.nbad.load(Ordering::SeqCst),
+        ct.max_lead.load(Ordering::SeqCst),
+        ct.maxsetcap.load(Ordering::SeqCst),
         works.lock().unwrap().len(),
         ninit.0.load(Ordering::SeqCst),
         ninit.1.load(Ordering::SeqCst),
@@ -921,7 +951,7 @@ pub fn cmd_api(suite: &Value, out: &str, seed: u64) {
             c.pattern = pat;
             c.x = x;
             c.big = true;
-            c.api = "parallel_init".into();
+            c.api = if i % 2 == 0 { "parallel_init".into() } else { "read_parallel".into() };
             c.cap = 8192;
             c.stop_after = 0;
             c.rinit_fail = false;
